@@ -278,6 +278,10 @@ func verifyServerExtensions(copts *compressionOptions, h http.Header) (*compress
 
 	_copts := *copts
 	copts = &_copts
+	// The server only resets its compression context between messages if its
+	// response says so, no matter what we asked for. Otherwise its messages
+	// must be decompressed with context takeover.
+	copts.serverNoContextTakeover = false
 
 	for _, p := range ext.params {
 		switch p {
